@@ -26,7 +26,11 @@ VARIABLES pending,      \* set of [s, n, c] records
 
 vars == <<pending, weights, out, res, nops>>
 
+\* k: class of the (first) message, m: number of messages; only single-message transactions are classified by
+\* their message type, all others fall into the lowest class (CheckTx priority 0)
+Eff(k, m) == IF m = 1 THEN k ELSE 0
 Tx == [s : Senders, n : Nonces, c : Classes]
+MkTx(s, n, k, m) == [s |-> s, n |-> n, c |-> Eff(k, m)]
 Key(t) == <<t.s, t.n>>
 MinW == -1                      \* MinValue of the priority type (below every class)
 
